@@ -64,6 +64,13 @@ inductive Op where
   | reserve (t : Loc) (k n : Nat)
   /-- `GetObject()->Clear()` / `GetArray()->Clear()` on the target. -/
   | clear (t : Loc)
+  /-- a container-typed overload (`ObjectT` / `ArrayT` / `StringT`, kind 2 / 3 / 4) with the container taken from
+  any location of the forest, also inside the destination, an ancestor of it, or the destination itself:
+  `add = false`: `operator=` / construction followed by move assignment; `add = true`: `operator+=`;
+  `mv = false`: the `const&` overload, `mv = true`: the `&&` overload (the source container is left moved-out).
+  Value semantics: the destination reference is obtained first, then the operand is read (snapshot), then
+  assigned. -/
+  | container (t s : Loc) (kind : Nat) (add mv : Bool)
   /-- `source.GroupBy(root dest, key)`. -/
   | groupBy (dest : Nat) (s : Loc) (k : Key)
   deriving Repr, Inhabited
@@ -156,6 +163,23 @@ def step (fmtReal : Nat → List Nat) (op : Op) (env : Env) : Env × Bool :=
       | some x => (onTarget env t (fun _ => x), true)
       | none => (onTarget env t id, true)
   | .clear t => (onTarget env t clearDoc, true)
+  | .container t s kind add mv =>
+      let env1 := onTarget env t id
+      match getAt (envGet env1 s.root) s.path with
+      | some x =>
+          if isContainerKind kind x then
+            let payload := if mv then x else copyDoc x
+            let env2 := if mv then envSet env1 s.root (modAt (envGet env1 s.root) s.path movedOut) else env1
+            let f : Doc → Doc :=
+              if add then
+                (match payload with
+                 | obj c sl => addObj c sl
+                 | arr items => addArr items
+                 | p => pushDoc p)
+              else (fun _ => payload)
+            (envSet env2 t.root (refUpd t.path f (envGet env2 t.root)), true)
+          else (env1, true)
+      | none => (env1, true)
   | .groupBy dest s k =>
       if dest = s.root then (env, true) else
       match getAt (envGet env s.root) s.path with
